@@ -35,3 +35,42 @@ Proof. intros Ha U W. rewrite g_uint_to_nz_eq by assumption. cbn [fst snd]. rewr
 Lemma g_uint_to_odd_spec n a : wf a ->
   fst (g_uint_to_odd n a) = a /\ snd (g_uint_to_odd n a) = choice_of_bool (Z.odd (eval a)).
 Proof. intros W. rewrite g_uint_to_odd_eq. cbn [fst snd]. rewrite uint_is_odd_spec by assumption. auto. Qed.
+
+(* ================= Odd::<Uint<LIMBS>>::from_be_hex / from_le_hex (src/odd.rs): `Uint::from_*_hex(hex)`, then
+   `assert!(uint.is_odd().is_true_vartime(), "number must be odd")` (dropped by the translator: stated below through the generated
+   `g_uint_is_odd`), then `Odd(uint)` (erased newtype) ================= *)
+From CB Require Import Model.Conv Src.GenHex Src.GenHexP Src.GenConv Src.GenConvP.
+From CB Require Import Proofs.ConvDigitsP Proofs.ConvHexP Proofs.ConvP.
+
+Lemma g_odd_uint_from_be_hex_eq n cs : g_odd_uint_from_be_hex n cs = g_uint_from_be_hex n cs.
+Proof. reflexivity. Qed.
+Lemma g_odd_uint_from_le_hex_eq n cs : g_odd_uint_from_le_hex n cs = g_uint_from_le_hex n cs.
+Proof. reflexivity. Qed.
+
+(* the asserted flag of the source, `uint.is_odd().is_true_vartime()`, on a canonical value *)
+Lemma g_is_odd_flag n r : wf r -> cc_true (g_uint_is_odd n r) = Z.odd (eval r).
+Proof. intros W. rewrite g_uint_is_odd_eq, uint_is_odd_spec by assumption. apply cc_true_bool. Qed.
+Lemma g_is_odd_low n r : wf r -> cc_true (g_uint_is_odd n r) = Z.odd (nthz r 0).
+Proof. intros W. rewrite g_is_odd_flag by assumption. symmetry. apply odd_low_limb. Qed.
+
+(** generated text = model: the constructor returns exactly when BOTH dropped assertions hold *)
+Lemma g_odd_uint_from_be_hex_model n cs : length cs = (16 * n)%nat -> Z.of_nat (16 * n) < 2 ^ 64 -> wfd 256 cs ->
+  odd_from_be_hex n cs =
+  if (g_be_hex_err n cs =? 0) && cc_true (g_uint_is_odd n (g_odd_uint_from_be_hex n cs))
+  then Val [g_odd_uint_from_be_hex n cs] else PanicV.
+Proof.
+  intros L HB W. unfold odd_from_be_hex. rewrite g_odd_uint_from_be_hex_eq.
+  pose proof (from_be_hex_spec n cs W) as S. rewrite (g_uint_from_be_hex_eq n cs L HB W) in *.
+  destruct (g_be_hex_err n cs =? 0); cbn [odd_new andb]; [|reflexivity].
+  destruct S as (_ & ds & _ & Wr & _). rewrite g_is_odd_low by assumption. reflexivity.
+Qed.
+Lemma g_odd_uint_from_le_hex_model n cs : length cs = (16 * n)%nat -> Z.of_nat (16 * n) < 2 ^ 64 -> wfd 256 cs ->
+  odd_from_le_hex n cs =
+  if (g_le_hex_err n cs =? 0) && cc_true (g_uint_is_odd n (g_odd_uint_from_le_hex n cs))
+  then Val [g_odd_uint_from_le_hex n cs] else PanicV.
+Proof.
+  intros L HB W. unfold odd_from_le_hex. rewrite g_odd_uint_from_le_hex_eq.
+  pose proof (from_le_hex_spec n cs W) as S. rewrite (g_uint_from_le_hex_eq n cs L HB W) in *.
+  destruct (g_le_hex_err n cs =? 0); cbn [odd_new andb]; [|reflexivity].
+  destruct S as (_ & ds & _ & Wr & _). rewrite g_is_odd_low by assumption. reflexivity.
+Qed.
